@@ -369,6 +369,51 @@ def replay_protocol(hists):
     return res
 
 
+def replay_localenv(cfgs):
+    """LocalEnv: the rows the local model of LRE is fitted on, for every configuration TLC enumerated."""
+    from skmatter.metrics import pointwise_local_reconstruction_error as plre
+
+    class Rec:
+        def __init__(self):
+            self.fits = []
+
+        def fit(self, X, Y):
+            self.fits.append(np.asarray(Y, float).copy())
+            self.p = Y.shape[1]
+            return self
+
+        def predict(self, X):
+            return np.zeros((len(X), self.p))
+    rng = np.random.default_rng(31)
+    res = {"agree": 0, "disagree": []}
+    for e in cfgs:
+        tr, q, k = [int(v) for v in e["tr"]], int(e["q"]), int(e["nloc"])
+        nt = len(tr)
+        valid = {tuple(i for i in range(nt) if m[i]) for m in e["valid"]}
+        for ntest in (1, k + 1):                       # fewer and more test points than neighbours
+            perm = rng.permutation(nt)                   # training rows in arbitrary order
+            X = np.array([tr[i] for i in perm] + [q] * ntest, float).reshape(-1, 1)
+            Y = np.vstack([np.eye(nt)[perm], np.zeros((ntest, nt))])       # the target of a training row names the row
+            rec = Rec()
+            got = None
+            try:
+                with warnings.catch_warnings():
+                    warnings.simplefilter("ignore")
+                    plre(X, Y, k, train_idx=np.arange(nt), test_idx=np.arange(nt, nt + ntest), estimator=rec)
+                envs = []
+                for Yl in rec.fits:
+                    envs.append(tuple(sorted(int(np.argmax(row)) for row in Yl)))
+                got = envs
+                ok = len(envs) == ntest and all(len(set(s)) == k and s in valid for s in envs)
+            except Exception as ex:  # noqa
+                got, ok = "%s: %s" % (type(ex).__name__, str(ex)[:80]), False
+            if ok:
+                res["agree"] += 1
+            else:
+                res["disagree"].append({"tr": tr, "q": q, "n_local": k, "n_test": ntest, "valid": sorted(valid), "got": got})
+    return res
+
+
 def replay_protocol_cap(hists):
     """ProtocolCap: every history TLC enumerated, on KernelPCovR (fit_inverse_transform = the capability requested at a fit)."""
     from skmatter.decomposition import KernelPCovR
@@ -457,6 +502,16 @@ def run(tier):
         if v[1]:
             first = [d for d in pr["disagree"] if d["class"] == k_][:1]
             print("  DISAGREE %s: %d histories%s" % (k_, v[1], (" e.g. %s -> %s" % (first[0]["history"], first[0]["got"])) if first else ""))
+    rl = core.run_tlc("LocalEnv.tla", cfg="mc/LocalEnv.cfg", workers=1)
+    if rl["error"]:
+        raise core.Machinery("LocalEnv model: " + str(rl["error"]))
+    le = [e for e in rl["records"] if e.get("k") == "E"]
+    lr = replay_localenv(le)
+    out["lre_neighbourhood"] = {"configurations": len(le), "replays_agreeing": lr["agree"], "replays_disagreeing": len(lr["disagree"]), "disagreements": lr["disagree"][:10]}
+    print("extras: LRE neighbourhood (n_local nearest training points, 1 and n_local + 1 test points): %d configurations: %d agree, %d disagree"
+          % (len(le), lr["agree"], len(lr["disagree"])))
+    for d_ in lr["disagree"][:3]:
+        print("  DISAGREE", d_)
     rc_ = core.run_tlc("ProtocolCap.tla", cfg="mc/ProtocolCap.cfg", workers=1)
     if rc_["error"]:
         raise core.Machinery("ProtocolCap model: " + str(rc_["error"]))
